@@ -144,6 +144,15 @@ func (rs *RewardShadow) noteOverpaid(pk PosKey, paid sdk.Coins, v *big.Rat) {
 			lim := new(big.Rat).Mul(v, big.NewRat(int64(rs.N[pk]+3), 1_000_000_000_000_000_000))
 			lim.Add(lim, new(big.Rat).Mul(ratInt(c.Amount), big.NewRat(int64(rs.N[pk]+3)*4, 1_000_000_000_000_000_000)))
 			lim.Add(lim, ratI64(1))
+			// ... and of the validator's fraction of the asset when the rewards were received (a small fraction vs/tvs
+			// has few significant digits at 18 decimals: the index was computed on a token value that is off by
+			// that relative error; the same term is part of the resolution budget of unclaimed entitlements)
+			if fe := rs.FracErr[pk]; fe != nil {
+				if fe.Cmp(ratI64(1)) > 0 {
+					fe = ratI64(1)
+				}
+				lim.Add(lim, new(big.Rat).Mul(ratInt(c.Amount), fe))
+			}
 			if over.Cmp(lim) <= 0 {
 				rs.OverRound[c.Denom].Add(rs.OverRound[c.Denom], over)
 			} else if v.Sign() > 0 {
@@ -991,7 +1000,7 @@ func (m *MonC12) classify(s *Snap, msg string, branchPaid ...sdk.Coins) (string,
 	if or := m.rs.OverRound[denom]; or != nil {
 		resAll.Add(resAll, or) // round-ups already paid out earlier left the pool that much short
 	}
-	if shortfall.Cmp(resAll) <= 0 && res.Cmp(ratI64(int64(len(s.DelOrder))+2)) > 0 {
+	if shortfall.Cmp(resAll) <= 0 && resAll.Cmp(ratI64(int64(len(s.DelOrder))+2)) > 0 {
 		return "index-round-up", fmt.Sprintf("pool of %s short by %s, within the 18-digit resolution of the reward index on the staked totals (%s)", denom, ratStr(shortfall), ratStr(res))
 	}
 	return "", ""
